@@ -608,6 +608,11 @@ func WorkerIO[I any, O any](args []string, f func(in I, dir string) O) {
 // JudgeTraceChunked is JudgeTrace over consecutive slices of recs of at most maxBytes of JSON each, so that the
 // memory TLC needs to deserialise a trace stays bounded (verdicts refer to records by their own "case" field).
 func (c *Ctx) JudgeTraceChunked(res *Result, module string, recs []any, maxBytes int) ([]map[string]any, error) {
+	return c.JudgeTraceChunkedAt(res, module, recs, maxBytes, nil)
+}
+
+// JudgeTraceChunkedAt only cuts before records for which canSplit holds (stateful trace specs: the start of a session).
+func (c *Ctx) JudgeTraceChunkedAt(res *Result, module string, recs []any, maxBytes int, canSplit func(rec any) bool) ([]map[string]any, error) {
 	var bad []map[string]any
 	start, size := 0, 0
 	flush := func(end int) error {
@@ -618,13 +623,18 @@ func (c *Ctx) JudgeTraceChunked(res *Result, module string, recs []any, maxBytes
 		if err != nil {
 			return err
 		}
+		for _, v := range b {
+			if _, has := v["line"]; has { // positions refer to the whole trace
+				v["line"] = float64(Int(v, "line") + start)
+			}
+		}
 		bad = append(bad, b...)
 		start, size = end, 0
 		return nil
 	}
 	for i, r := range recs {
 		b, _ := json.Marshal(r)
-		if size > 0 && size+len(b) > maxBytes {
+		if size > 0 && size+len(b) > maxBytes && (canSplit == nil || canSplit(r)) {
 			if err := flush(i); err != nil {
 				return nil, err
 			}
